@@ -70,7 +70,7 @@ static std::string events(const Recorder& r,size_t from,size_t to){
 // source by tools/translators/mem.py)
 static bool reserved_indep(const char* key){
   static const char* pre[]={"BITPIX","SIMPLE","TYPE","ORDER","NAXIS","PERIOD","EXTEND","COMMENT"};
-  static const char* exact[]={"","END","HISTORY","CONTINUE","PCOUNT","GCOUNT"};   // exact matches (added by the C16 fix)
+  static const char* exact[]={"","END","HISTORY","CONTINUE","PCOUNT","GCOUNT","EXTNAME","HDUNAME"};   // exact matches (added by the C16 fix; EXTNAME/HDUNAME by the fix of C06:aux-key:EXTNAME-shadows-KNOTSn)
   for(const char* p: pre) if(strncmp(p,key,strlen(p))==0) return true;
   for(const char* e: exact) if(strcmp(e,key)==0) return true;
   return false;
